@@ -74,6 +74,10 @@ fn tr_upper(s: &str) -> Cow<str> {
     s.to_ascii_uppercase().into()
 }
 
+fn tr_pseudo(s: &str) -> Cow<str> {
+    fluent_pseudo::transform(s, false, true)
+}
+
 fn fm_numbr<M>(v: &FluentValue, _: &M) -> Option<String> {
     match v {
         FluentValue::Number(n) => Some(format!("[{}]", n.as_string())),
@@ -217,6 +221,7 @@ fn configure<M: MemoizerKind>(
     bundle.set_use_isolating(kv(cfg, "iso") == "1");
     match kv(cfg, "tr") {
         "upper" => bundle.set_transform(Some(tr_upper)),
+        "pseudo" => bundle.set_transform(Some(tr_pseudo)),
         _ => bundle.set_transform(None),
     }
     match kv(cfg, "fm") {
